@@ -193,6 +193,9 @@ pub struct Peripheral<'a> {
     ext_diag: crate::dp::ExtendedDiagnostics<'a>,
     /// Flag to indicate necessity of polling diagnostics ASAP
     diag_needed: bool,
+    /// Whether the request currently in flight (including its retries) is a diagnostics request
+    /// instead of the cyclic data exchange.
+    diag_in_flight: bool,
 
     #[cfg(feature = "debug-measure-roundtrip")]
     tx_time: Option<crate::time::Instant>,
@@ -212,6 +215,7 @@ impl Default for Peripheral<'_> {
             diag: Default::default(),
             ext_diag: Default::default(),
             diag_needed: Default::default(),
+            diag_in_flight: Default::default(),
             #[cfg(feature = "debug-measure-roundtrip")]
             tx_time: Default::default(),
             options: Default::default(),
@@ -436,7 +440,13 @@ impl<'a> Peripheral<'a> {
                 Ok(self.send_diagnostics_request(fdl, tx))
             }
             PeripheralState::DataExchange | PeripheralState::PreDataExchange => {
-                if self.diag_needed {
+                // Only choose the service when starting a new message cycle.  A retry must repeat
+                // the same request and the reply must be interpreted as the reply to the request
+                // that was sent, even if `request_diagnostics()` was called in the meantime.
+                if self.retry_count == 0 {
+                    self.diag_in_flight = self.diag_needed;
+                }
+                if self.diag_in_flight {
                     Ok(self.send_diagnostics_request(fdl, tx))
                 } else {
                     #[cfg(feature = "debug-measure-roundtrip")]
@@ -556,7 +566,7 @@ impl<'a> Peripheral<'a> {
                 event
             }
             PeripheralState::DataExchange | PeripheralState::PreDataExchange => {
-                if self.diag_needed {
+                if self.diag_in_flight {
                     if self.handle_diagnostics_response(fdl, &telegram).is_some() {
                         self.retry_count = 0;
                         self.diag_needed = false;
